@@ -22,7 +22,7 @@ Proof. apply eqb_bytes_eq. reflexivity. Qed.
 Definition authenticated (e : env) (s : sstate) (r : request) : bool :=
   match r_cookie r with
   | CTok tok => authenticates (e_ttl e) (e_now e) tok s
-  | CNone => match r_basic r with BCred ok => ok | BNone => false end
+  | CNone => basic_ok e r
   end.
 
 (** The only thing a refused request may do to the session table: the
@@ -149,7 +149,7 @@ Proof.
   - destruct (is_public (r_path r)) eqn:Hp; [right; eexists; repeat split; eauto|].
     destruct (e_auth_required e) eqn:Hreq; [|right; eexists; repeat split; eauto; discriminate].
     destruct (r_cookie r) as [|tok].
-    + destruct (match r_basic r with BNone => false | BCred ok => ok end) eqn:Hb.
+    + destruct (basic_ok e r) eqn:Hb.
       * right. eexists. repeat split; eauto.
       * left. destruct (eqb_bytes (r_path r) str_slash || eqb_bytes (r_path r) str_index);
           eexists _, _; repeat split; auto.
@@ -338,12 +338,13 @@ Qed.
 (** Non-vacuity: a concrete unauthenticated POST that is refused, and the same
     request with a valid cookie that reaches the handler. *)
 Definition ex_env : env :=
-  {| e_first_run := false; e_auth_present := true; e_users := true; e_https := false; e_force_https := false;
-     e_now := 1000; e_ttl := 3600 |}.
+  {| e_first_run := false; e_auth_present := true; e_accounts := [([97]%N, [36;50;97;36]%N)];
+     e_bcrypt := fun _ p => if eqb_bytes p [112]%N then BcOk else BcMismatch;
+     e_https := false; e_force_https := false; e_now := 1000; e_ttl := 3600 |}.
 Definition ex_path : bytes := [47;99;111;110;116;114;111;108;47;115;116;97;116;117;115]%N.
 Definition ex_req (c : cookie) : request :=
   {| r_method := str_POST; r_path := ex_path; r_ctype := str_json; r_clen := 2; r_cookie := c;
-     r_basic := BNone; r_tls := false; r_host_ok := true |}.
+     r_basic := BNone; r_tls := false; r_host_ok := true; r_hdrs := [] |}.
 Definition ex_world : world nat :=
   {| w_app := 0%nat; w_sess := new_session 3600 900 [7]%N [97]%N s_init |}.
 Definition ex_cookie : cookie := CTok (hex_encode [7]%N).        (* "07" *)
